@@ -1052,7 +1052,7 @@ def sinks(rng, B):
         for _ in range(rng.randint(1, 3)):
             k = rng.choice(["shift", "shift-mask", "const-shift", "const-alu", "exp", "sha3", "ret", "log", "call", "create", "copy", "mem", "jump",
                             "slot-arith", "mask", "mulshift", "signext-byte", "divmod", "nested-hash", "sstore-const",
-                            "mstore8", "balance"])
+                            "mstore8", "balance", "map-proj", "map-proj"])
             feats.add(k)
             if k == "shift":
                 sym()
@@ -1142,6 +1142,20 @@ def sinks(rng, B):
                 else:
                     sym()
                     a.emit("SWAP1", "SSTORE")
+            elif k == "map-proj":
+                # several accesses to members of one mapping's (struct) value: keccak(key . slot) + c, with the
+                # member offsets c at the limits of what a projection can express
+                slot = rng.choice([0, 1, 5])
+                offs = [0, 1, 2, 255, 256, (1 << 56) - 2, (1 << 56) - 1, 1 << 56, (1 << 56) + 1, (1 << 64) - 1, 1 << 64,
+                        (1 << 248) - 1, 1 << 255, evm.M256]
+                for _ in range(rng.randint(2, 3)):
+                    a.emit("CALLER", 0, "MSTORE", slot, 0x20, "MSTORE", 0x40, 0, "SHA3",
+                           ("push", rng.choice(offs), None), "ADD")
+                    if rng.random() < 0.5:
+                        a.emit("SLOAD", rng.choice(["POP", [b(), "AND", 0, "MSTORE"]]))
+                    else:
+                        sym()
+                        a.emit("SWAP1", "SSTORE")
             elif k == "mask":
                 a.emit(rng.randrange(4), "SLOAD", b(), "AND")
                 if rng.random() < 0.6:
